@@ -3,7 +3,7 @@ use std::marker::PhantomData;
 #[allow(unused_imports)] use any_vec::traits::{Cloneable, None as TNone};
 #[allow(unused_imports)] use anyvec_mc::elem::*;
 use anyvec_mc::exec::{Cfg, Runner};
-#[allow(unused_imports)] use anyvec_mc::track::{Track, TrackFixed, TrackTight};
+#[allow(unused_imports)] use anyvec_mc::track::{Track, TrackFence, TrackFixed, TrackTight};
 use anyvec_mc::Entry;
 #[cfg(feature = "alloc")] #[allow(unused_imports)] use any_vec::mem::Heap;
 
